@@ -88,23 +88,59 @@ func shapeSpec(n int, choice []int) *spec.Spec {
 	return s
 }
 
-// ShapeCliques: n messages each referring to every other one (the number of reference paths is factorial in n).
+// ShapeCliques: n messages each referring to every other one (the number of reference paths is factorial in n), for every kind
+// of reference edge: singular, repeated, map value, member of a oneof, and the kinds mixed.
 func ShapeCliques() []*spec.Spec {
 	var out []*spec.Spec
-	for _, n := range []int{2, 4, 6, 8, 10, 12} {
-		var msgs []*spec.Message
-		for i := 0; i < n; i++ {
-			m := spec.M(fmt.Sprintf("M%d", i), spec.F("label", "string"))
-			for j := 0; j < n; j++ {
-				if j != i {
-					m.Fields = append(m.Fields, spec.Msg(fmt.Sprintf("to_m%d", j), fmt.Sprintf("M%d", j)))
+	for _, edge := range []string{"singular", "repeated", "map", "oneof", "mixed"} {
+		for _, n := range []int{2, 4, 6, 8, 10, 12} {
+			var msgs []*spec.Message
+			for i := 0; i < n; i++ {
+				m := spec.M(fmt.Sprintf("M%d", i), spec.F("label", "string"))
+				oneof := false
+				for j := 0; j < n; j++ {
+					if j == i {
+						continue
+					}
+					f := spec.Msg(fmt.Sprintf("to_m%d", j), fmt.Sprintf("M%d", j))
+					kind := edge
+					if edge == "mixed" {
+						kind = []string{"singular", "repeated", "map", "oneof"}[(i+j)%4]
+					}
+					switch kind {
+					case "repeated":
+						f.Rep()
+					case "map":
+						f.Map()
+					case "oneof":
+						f.In("pick")
+						oneof = true
+					}
+					m.Fields = append(m.Fields, f)
 				}
+				if oneof {
+					// the members of a oneof are declared consecutively
+					var plain, members []*spec.Field
+					for _, f := range m.Fields {
+						if f.Oneof != "" {
+							members = append(members, f)
+						} else {
+							plain = append(plain, f)
+						}
+					}
+					m.Fields = append(plain, members...)
+					m.WithOneof(&spec.Oneof{Name: "pick"})
+				}
+				msgs = append(msgs, m)
 			}
-			msgs = append(msgs, m)
+			name, cell := fmt.Sprintf("clique%d", n), fmt.Sprintf("shape/clique=%d", n)
+			if edge != "singular" {
+				name, cell = fmt.Sprintf("clique%d_%s", n, edge), fmt.Sprintf("shape/clique=%d,edge=%s", n, edge)
+			}
+			s := spec.One(name, &spec.File{Messages: msgs, Services: []*spec.Service{spec.SvcNoBase("ShapeService", spec.RPCDefault("Do", "M0", "M0"))}})
+			s.Cell = cell
+			out = append(out, s)
 		}
-		s := spec.One(fmt.Sprintf("clique%d", n), &spec.File{Messages: msgs, Services: []*spec.Service{spec.SvcNoBase("ShapeService", spec.RPCDefault("Do", "M0", "M0"))}})
-		s.Cell = fmt.Sprintf("shape/clique=%d", n)
-		out = append(out, s)
 	}
 	return out
 }
